@@ -111,9 +111,18 @@ def concretise(sc: Dict[str, Any], tmp: Path, h: int) -> Tuple[List[str], Dict[s
     elif d == "required_key_missing":
         # the key that is not supplied: `value` is needed by node 1; when a later node creates it too
         # (order-sensitive truth) it is still required
-        if h % 2:
+        k = h % 4
+        if k == 1:
             nodes.append({"processor": "FloatCollectValueProbe", "context_key": "value"})
-        ctx.pop("value")
+        if k in (0, 1):
+            ctx.pop("value")
+        elif k == 2:
+            # two generated processors with one class name (Template_label) and different placeholders:
+            # only the second one needs the key that is not supplied
+            nodes.insert(2, {"processor": 'template:"r={value}":label'})
+            nodes.append({"processor": 'template:"r={value}-{tag}":label'})
+        else:
+            nodes.append({"processor": "rename:tag:other"})        # `tag` is supplied by nobody
     elif d == "bad_attempt":
         argv += ["--run-space-attempt", ["0", "-3"][h % 2]]
     elif d == "runspace_source_missing":
